@@ -204,6 +204,68 @@ pub fn run(args: &[String]) -> i32 {
     for e in sudachi::verif::take_global() {
         tr.emit(e);
     }
+    // cold starts: a freshly loaded dictionary (no user dictionary, so loading analysed nothing) whose very first analyses are made by
+    // several threads at once; the reference is a single-threaded run on another fresh dictionary of the same configuration
+    let cold_trials = arg_u64(args, "--cold-trials", 0) as usize;
+    let cold_cfg = format!("{}-cold", cfg);
+    if cold_trials > 0 && dir.join(format!("{}.json", cold_cfg)).exists() {
+        const OFF: usize = 500;
+        let nt = nthreads.min(8);
+        let refd = Arc::new(c19::load(&dir, &cold_cfg));
+        let _ = sudachi::verif::take_global(); // the publication judged by this trace is that of the main dictionary
+        // the texts that need every plugin (half-width kana with rewrite rules, prolonged marks, readings in brackets, numerals), and a few plain ones
+        let cold_texts: Vec<usize> = (texts.len() - 6..texts.len()).chain(0..4).collect();
+        {
+            let mut tok = StatefulTokenizer::new(refd.clone(), Mode::C);
+            for ti in &cold_texts { for m in 0..3usize {
+                let ms = analyse(&mut tok, &refd, &texts[*ti], crate::tok::mode_of(m));
+                tr.emit(json!({"ev": "oracle", "when": "before", "text": OFF + ti, "mode": m, "ms": ms}));
+            } }
+        }
+        let mut seen: std::collections::BTreeMap<(usize, usize, usize, String), usize> = Default::default();
+        for trial in 0..cold_trials {
+            let d = Arc::new(c19::load(&dir, &cold_cfg));
+            let _ = sudachi::verif::take_global();
+            let barrier = Arc::new(Barrier::new(nt));
+            let mut hs = Vec::new();
+            for th in 0..nt {
+                let (d, barrier, texts, cold_texts) = (d.clone(), barrier.clone(), texts.clone(), cold_texts.clone());
+                hs.push(std::thread::spawn(move || {
+                    quiet_panics();
+                    let mut tok = StatefulTokenizer::new(d.clone(), Mode::C);
+                    let mut out = Vec::new();
+                    barrier.wait();
+                    for k in 0..3 {
+                        // the last analysis of every thread is the text with rewrite rules: whatever the first analyses left behind shows there
+                        let ti = if k == 2 { cold_texts[5] } else { cold_texts[(th + trial + k * 3) % cold_texts.len()] };
+                        let m = (th + k) % 3;
+                        out.push((ti, m, analyse(&mut tok, &d, &texts[ti], crate::tok::mode_of(m)).to_string()));
+                    }
+                    out
+                }));
+            }
+            let start = std::time::Instant::now();
+            while hs.iter().any(|h| !h.is_finished()) {
+                if start.elapsed() > std::time::Duration::from_secs(15) {
+                    let alive = hs.iter().filter(|h| !h.is_finished()).count();
+                    tr.emit(json!({"ev": "hang", "threads_still_running": alive, "after_secs": 15, "cold_trial": trial}));
+                    tr.finish();
+                    println!("{}", json!({"events": 0, "hang": alive}));
+                    std::process::exit(0);
+                }
+                std::thread::sleep(std::time::Duration::from_millis(1));
+            }
+            for (th, h) in hs.into_iter().enumerate() {
+                match h.join() {
+                    Ok(v) => for (ti, m, ms) in v { *seen.entry((th, ti, m, ms)).or_insert(0) += 1; },
+                    Err(_) => tr.emit(json!({"ev": "thread_died", "cold_trial": trial})),
+                }
+            }
+        }
+        for ((th, ti, m, ms), count) in seen {
+            tr.emit(json!({"ev": "end", "thread": th, "seq": 0, "text": OFF + ti, "mode": m, "ms": serde_json::from_str::<Value>(&ms).unwrap(), "count": count, "cold": true}));
+        }
+    }
     let n = tr.finish();
     println!("{}", json!({"events": n, "threads": nthreads, "iters": iters, "texts": texts.len()}));
     0
